@@ -69,6 +69,9 @@ WRITER_TIERS = {
     "thorough": [{"mode": "rc", "cases": 12000, "max_size": 100}],
 }
 
+C08_TIERS = {"quick": [{"mode": "rc", "cases": 400, "max_size": 100}],
+             # hugekey: one fixed scenario with a key of 2^31+1 bytes (several GiB of memory for a few seconds)
+             "thorough": [{"mode": "rc", "cases": 12000, "max_size": 100}, {"mode": "hugekey", "workers": 1}]}
 PROPS["C08"] = {
     "manifest": {
         "level_text": ("Generated histories of add calls (stateful, model-based): the model predicts accept/refuse for every call "
@@ -86,7 +89,7 @@ PROPS["C08"] = {
              ">= 2 data blocks in the same history; distinct by FNV-1a of the serialised case."),
     "expect_tags": ["has_refusal", "multi_block", "refusal_right_after_block_cut", "preexisting_target"],
     "assumptions": TABLE_ASSUME,
-    "tiers": WRITER_TIERS,
+    "tiers": C08_TIERS,
 }
 PROPS["C09"] = {
     "manifest": {
@@ -279,7 +282,8 @@ PROPS["C17"] = {
         "quick": [{"mode": "vectors", "workers": 1}, {"mode": "lens", "kv": {"reps": 2}}, {"mode": "bytes", "kv": {"lmax": 40}},
                   {"mode": "big", "kv": {"maxlen": 1048576, "count": 3}}, {"mode": "rc", "cases": 1500, "workers": 8}],
         "thorough": [{"mode": "vectors", "workers": 1}, {"mode": "lens", "kv": {"reps": 40}}, {"mode": "bytes", "kv": {"lmax": 200}},
-                     {"mode": "big", "kv": {"maxlen": 16777216, "count": 12}}, {"mode": "rc", "cases": 30000, "workers": 8}],
+                     {"mode": "big", "kv": {"maxlen": 16777216, "count": 12}},
+                     {"mode": "huge", "workers": 3, "note": "three buffers of 2^32 .. 2^32+1100 bytes"}, {"mode": "rc", "cases": 30000, "workers": 8}],
     },
 }
 
